@@ -269,15 +269,17 @@ def nan_normal_faces(levels):
                 t = AXN[ty[1]]; w = [0.0 if k == t else p[k] for k in range(3)]
             else:
                 continue
+            # |w|^2 is zero (exactly, or by underflow): 1/|w| = inf and the
+            # "unit normal" has NaN (0*inf) or infinite components
             dot = w[0] * w[0] + w[1] * w[1] + w[2] * w[2]
-            if dot == 0.0 and w[0] == 0.0:
+            if dot == 0.0:
                 out.append((li, ty, d))
     return out
 
 
 def run(ctx):
     quick = ctx.tier == "quick"
-    ngeo = int(os.environ.get("VERIF_C11_NGEO", 0)) or (120 if quick else 1500)
+    ngeo = int(os.environ.get("VERIF_C11_NGEO", 0)) or (70 if quick else 1500)
     npts = 40
     ctx.trusted += [
         "hand-written model coq/C11/Safety.v (+ C12 surface model) tied by differential testing against OrangeTrackView::find_safety (props/C11/run.py, harness/safety.cc)",
@@ -336,6 +338,7 @@ def run(ctx):
     ctx.log("harness done")
     found = False
     nviol = 0
+    nf4 = 0
     exprs, meta = [], []
     for gi, (txt, pts) in enumerate(geos):
         gline, pl = results[gi]
@@ -368,6 +371,11 @@ def run(ctx):
             if bad:
                 nanf = nan_normal_faces(res["levels"])
                 sig = F4_SIG if (nanf and s == INF or (nanf and s > m)) else None
+                ctx.count("non-conservative:" + (sig or "other"))
+                if sig is not None:
+                    nf4 += 1
+                    if nf4 > 1:
+                        continue      # one replay of the known finding per run is enough
                 ctx.violation("oracle", bad + (" [calc_normal is NaN for face %r]" % (nanf[0],) if nanf else ""),
                               {"geometry": txt, "point": p, "point_hex": [float(x).hex() for x in p], "find_safety": s,
                                "min_find_next_step": m, "direction": res["mindir"], "levels": res["levels"],
@@ -375,7 +383,6 @@ def run(ctx):
                 if sig is None:
                     found = True
                     nviol += 1
-                ctx.count("non-conservative:" + (sig or "other"))
             if any(lv["flag"] < 0 for lv in res["levels"]):
                 continue
             exprs.append("run_find_safety [%s]" % "; ".join(
@@ -387,8 +394,9 @@ def run(ctx):
             break
     ctx.log("oracle done: %d model evaluations" % len(exprs))
     # ---- correspondence model vs implementation -------------------------------
-    if len(exprs) > (2500 if quick else 40000):
-        keep = sorted(ctx.rng.sample(range(len(exprs)), 2500 if quick else 40000))
+    nmax = 1200 if quick else 40000
+    if len(exprs) > nmax:
+        keep = sorted(ctx.rng.sample(range(len(exprs)), nmax))
         exprs = [exprs[i] for i in keep]; meta = [meta[i] for i in keep]
     mvals = ctx.coq_eval("safety", PRE, exprs, chunk=max(40, len(exprs) // 16 + 1))
     ndis = 0
